@@ -308,6 +308,28 @@ pub fn check_case(rep: &mut Report, p: &Ivs, seed: u64, thorough: bool) {
             }
         }
     }
+    // clone() and clone_from() into destinations that held something else
+    {
+        let c1 = cp.clone();
+        if !same_partition(&c1, &cp) || !check_partition(rep, p, &c1, "clone", seed, false, &mut rng) {
+            rep.violation("build", "build:clone", format!("clone() of the partition {} differs from it", case), "partition", &case, seed);
+            return;
+        }
+        let mut dests = vec![CharPartition::new(), CharPartition::from_set(&CharSet::all_chars()), CharPartition::from_set(&CharSet::range(3, 9))];
+        let other = gen_intervals(&mut rng, 5);
+        let mut d3 = CharPartition::new();
+        for &(a, b) in &other {
+            d3.push(a, b);
+        }
+        dests.push(d3);
+        for (i, mut d) in dests.into_iter().enumerate() {
+            rep.inc("clone_from_probes");
+            d.clone_from(&cp);
+            if !check_partition(rep, p, &d, &format!("clone_from#{}", i), seed, false, &mut rng) {
+                return;
+            }
+        }
+    }
     // from_set for single intervals
     if p.len() == 1 {
         let c1 = CharPartition::from_set(&CharSet::range(p[0].0, p[0].1));
